@@ -591,7 +591,8 @@ PROPS = {
                              {"kind": "meta", "name": "term", "profile": "term", "count": {"quick": 200, "thorough": 4000}, "salt": 32}],
                      None, ["the budget through the binary (termination::compile with -n alone or combined with a time limit that cannot fire, sync_launch, async_launch): exactly N children started (cli stream, profile budget)"]),
     "C04": _run_prop("C04", [{"kind": "run", "name": "stop", "profile": "stop", "count": {"quick": 320, "thorough": 4000}, "salt": 4},
-                             {"kind": "cli", "name": "limit", "profile": "limit", "count": {"quick": 16, "thorough": 120}, "salt": 41}],
+                             {"kind": "cli", "name": "limit", "profile": "limit", "count": {"quick": 16, "thorough": 120}, "salt": 41},
+                             {"kind": "cli", "name": "sigint", "profile": "sigint", "count": {"quick": 16, "thorough": 120}, "salt": 42}],
                      ["'delivered' = taken up by the controller's select loop (the abort turn); a request sent while completions are queued may be taken up after some of them (DESIGN 3, C04)"]),
     "C05": _run_prop("C05", [{"kind": "run", "name": "mixed", "profile": "mixed", "count": {"quick": 320, "thorough": 4000}, "salt": 5},
                              {"kind": "meta", "name": "inproc", "profile": "inproc", "count": {"quick": 24, "thorough": 400}, "salt": 51}],
@@ -668,7 +669,8 @@ PROPS = {
         "coq_targets": ["theories/Properties/C07.vo"],
         "checkers": ["CliCheck"],
         "streams": [{"kind": "cli", "name": "proc", "profile": "proc", "count": {"quick": 64, "thorough": 600}, "salt": 7},
-                    {"kind": "cli", "name": "reap", "profile": "reap", "count": {"quick": 24, "thorough": 200}, "salt": 71}],
+                    {"kind": "cli", "name": "reap", "profile": "reap", "count": {"quick": 24, "thorough": 200}, "salt": 71},
+                    {"kind": "cli", "name": "sigint", "profile": "sigint", "count": {"quick": 16, "thorough": 120}, "salt": 72}],
         "assumptions": [
             "partial: the theorem is about the process-group life cycle model (Cli.pstep); kernel behaviour of killpg/waitpid, PID reuse, zombie reaping are outside it",
             "every evaluation future of a run has completed or been dropped when the run returns (Rust drop semantics)",
